@@ -239,7 +239,7 @@ func checkC16Cuts(job *Job, res *Result) {
 }
 
 func checkC16Bad(job *Job, res *Result) {
-	res.Rule = "SEQ over inputs: all byte strings of length <= L (quick 4, thorough 5) over {* $ 1 2 - CR LF space \" G P a NUL} 10 HTTP request lines x 101 header-line forms x 3 terminations, and every catalogue command shape with one argument deleted / duplicated / emptied, each on its own connection of a live server next to a bystander connection; distinct = distinct (input class, reaction)"
+	res.Rule = "SEQ over inputs: all byte strings of length <= L (quick 4, thorough 5) over {* $ 1 2 - CR LF space \" G P a NUL} 10 HTTP request lines x 101 header-line forms x 3 terminations, 220 inputs with array counts / bulk lengths / native lengths / Content-Length at the integer-type boundaries, and every catalogue command shape with one argument deleted / duplicated / emptied, each on its own connection of a live server next to a bystander connection; distinct = distinct (input class, reaction)"
 	maxLen := 4
 	if job.Tier == "thorough" {
 		maxLen = 5
@@ -336,6 +336,26 @@ func checkC16Bad(job *Job, res *Result) {
 			}
 		}
 		res.Bounds["http_requests"] = hn
+		// ---- declared sizes: array counts, bulk lengths, native lengths and HTTP
+		// Content-Length at the boundaries of the integer types
+		nums := []string{"0", "-0", "-1", "-2", "+1", "01", "1e3", "0x10", " 1", "1 ", "", "2147483647", "2147483648", "4294967295", "4294967296", "9223372036854775807", "9223372036854775808", "18446744073709551616", "-9223372036854775808", "99999999999999999999999999"}
+		dn := 0
+		for _, n := range nums {
+			for _, in := range []string{
+				"*" + n + "\r\n", "*" + n + "\r\n$4\r\nPING\r\n", "*1\r\n$" + n + "\r\n", "*1\r\n$" + n + "\r\nPING\r\n", "*2\r\n$4\r\nECHO\r\n$" + n + "\r\nabc\r\n",
+				"$" + n + " PING\r\n", "$" + n + "\r\n", "*1\r\n*" + n + "\r\n", "*1\r\n:" + n + "\r\n",
+				"POST / HTTP/1.1\r\nContent-Length: " + n + "\r\n\r\nPING", "POST /PING HTTP/1.1\r\nContent-Length: " + n + "\r\n\r\n",
+			} {
+				dn++
+				if dn%job.NShards != job.Shard {
+					continue
+				}
+				if !check("declared-size", []byte(in)) {
+					return
+				}
+			}
+		}
+		res.Bounds["declared_size_inputs"] = dn
 		// ---- argument deletions / duplications of every catalogue shape
 		names, _ := catalogueNames("")
 		cat := catalogue()
